@@ -209,8 +209,8 @@ class Simplifier:
         if isinstance(e, ast.Attribute) and isinstance(e.value, ast.Name):
             if e.value.id == 'operator' and 'operator' not in local and self._is_stdlib_operator():
                 return True
-            if e.value.id == 'self' and 'self' not in local and self.cls is not None:
-                return self.p.lookup_method(self.cls.qn, e.attr) is not None
+            if e.value.id == 'self' and _params(self.f.args)[:1] == ['self'] and not stores(self.f).get('self') and self.cls is not None:
+                return self.p.lookup_method(self.cls.qn, e.attr) is not None      # a bound method of the receiver, which is never rebound
         return False
 
     def _is_stdlib_operator(self):
